@@ -56,6 +56,7 @@ def run(ctx):
         for base in CLOCK_BASES[1:]:
             sweeps.run_sweep(ctx, "c13v", [[1, 45, base]], "C13", stdin_data=data, binary=binary)
         rep.extra["clock_origins_ms"] = CLOCK_BASES
+        sweeps.run_sweep(ctx, "c13v", [[1, 45]], "C13", stdin_data=data, flavour="msan", sanitizer_is_violation=True)
         rep.need("values", rep.counters.get("sweep_c13v_cases", 0), 300000 * (6 + len(CLOCK_BASES) - 1) // 7)
         rep.sample(dict(begun=1, prior_count=45, r_values=[vals[k] for k in (0, 1, 2, 46, 70001, len(vals) // 2, len(vals) - 2, len(vals) - 1)],
                         oracle="Ni == min(10000, 45*r*r) in 128-bit arithmetic; r reset to 0; next Hello >= max(ceil(8*Ni/3), 6) ms away; "
